@@ -431,7 +431,7 @@ Definition table : list review := [
   mk_review "h3/src/qpack/prefix_string/mod.rs" "decode" K_arith 1 Guarded
     "size - 1: every caller passes the constant 8 or 4";
   mk_review "h3/src/qpack/prefix_string/mod.rs" "decode" K_buf_copy 1 Modelled
-    "Model/PrefixString.v ps_decode: guarded by buf.remaining() < len => UnexpectedEnd; theorem C06_no_panic_prefix_string (ps_decode_no_panic_c06)";
+    "Model/PrefixString.v ps_decode: guarded by buf.remaining() < len => UnexpectedEnd; theorem C06_no_panic_prefix_string (ps_decode_no_panic, C15)";
   mk_review "h3/src/qpack/prefix_string/mod.rs" "decode" K_cast 1 Guarded
     "widening cast usize -> u64 (64-bit usize), followed by saturating_mul: the H1 repair (Huffman strings of 2^29 bytes or more are refused before the 32-bit bit positions of the decoder can overflow)";
   mk_review "h3/src/qpack/prefix_string/mod.rs" "encode" K_arith 1 NotPeerReachable
